@@ -703,37 +703,24 @@ theorem dbSet_n (sch : Schema) (s : Sess) (o : ObjId) (rowv : Nat → Slot) (u :
   · split <;> rfl
 
 theorem idmapLoaded_n {sch : Schema} {s s1 : Sess} {c : Nat} {pk : KeyVal} {o : ObjId}
-    (h : idmapLoaded sch s c pk = .ok (s1, o)) : s.n ≤ s1.n ∧ (s.pkIx.get pk = none → o = s.n ∧ s1.n = s.n + 1) ∧
-      (∀ x, s.pkIx.get pk = some x → o = x ∧ s1.n = s.n) := by
+    (h : idmapLoaded sch s c pk = .ok (s1, o)) : s.n ≤ s1.n := by
   unfold idmapLoaded at h
   cases hg : s.pkIx.get pk with
   | some x =>
     simp only [hg] at h
-    refine ⟨?_, fun e => by cases e, ?_⟩
+    split at h
+    · cases h; exact Nat.le_refl _
     · split at h
       · cases h; exact Nat.le_refl _
       · split at h
-        · cases h; exact Nat.le_refl _
+        · cases h
         · split at h
           · cases h
-          · split at h
-            · cases h
-            · cases h; exact Nat.le_refl _
-    · intro x' e
-      cases e
-      split at h
-      · cases h; exact ⟨rfl, rfl⟩
-      · split at h
-        · cases h; exact ⟨rfl, rfl⟩
-        · split at h
-          · cases h
-          · split at h
-            · cases h
-            · cases h; exact ⟨rfl, rfl⟩
+          · cases h; exact Nat.le_refl _
   | none =>
     simp only [hg] at h
     cases h
-    exact ⟨Nat.le_succ _, fun _ => ⟨rfl, rfl⟩, fun x e => by cases e⟩
+    exact Nat.le_succ _
 
 theorem load_n (sch : Schema) (s : Sess) (row : Row) (used : List Nat) (u : Bool) : s.n ≤ (load sch s row used u).1.n := by
   unfold load
@@ -741,7 +728,7 @@ theorem load_n (sch : Schema) (s : Sess) (row : Row) (used : List Nat) (u : Bool
   | error e => exact Nat.le_refl _
   | ok p =>
     obtain ⟨s1, o⟩ := p
-    have h1 := (idmapLoaded_n hm).1
+    have h1 := idmapLoaded_n hm
     simp only
     split
     · exact h1
@@ -771,7 +758,7 @@ theorem step_n_le (sch : Schema) (s : Sess) (op : Op) : s.n ≤ (step sch s op).
     simp only [seed]
     cases hm : idmapLoaded sch s c pk with
     | error e => exact Nat.le_refl _
-    | ok p => obtain ⟨s1, o⟩ := p; exact (idmapLoaded_n hm).1
+    | ok p => obtain ⟨s1, o⟩ := p; exact idmapLoaded_n hm
   | load row used u => exact load_n sch s row used u
   | setAttrs o ch => simp only [setAttrs]; split; exact Nat.le_refl _; split; exact Nat.le_refl _; split <;> exact Nat.le_refl _
   | read o a => simp only [read]; split; exact Nat.le_refl _; split; exact Nat.le_refl _; split <;> exact Nat.le_refl _
@@ -781,5 +768,162 @@ theorem step_n_le (sch : Schema) (s : Sess) (op : Op) : s.n ≤ (step sch s op).
   | saveDeleted o => simp only [saveDeleted]; split; exact Nat.le_refl _; split <;> exact Nat.le_refl _
   | find c pk kw => exact Nat.le_of_eq (find_same (sch := sch) s c pk kw).n.symm
   | proxy o => simp only [proxy_state]; exact Nat.le_refl _
+
+/-! ## every returned object is an object of the session -/
+
+theorem findCand_lt {sch : Schema} {s : Sess} (hI : Inv sch s) {pk : Option KeyVal} {kw : List (Nat × Int)} {o : ObjId}
+    (h : findCand sch s pk kw = some o) : o < s.n := by
+  unfold findCand at h
+  cases hb : pk.bind s.pkIx.get with
+  | some o' =>
+    simp only [hb, Option.some.injEq] at h
+    subst h
+    cases pk with
+    | none => simp at hb
+    | some k => exact (hI.pk_sound k _ (by simpa using hb)).1
+  | none =>
+    simp only [hb] at h
+    obtain ⟨i, _, hi⟩ := List.exists_of_findSome?_eq_some h
+    cases hk : kv sch (kwVals kw) i with
+    | none => rw [hk] at hi; cases hi
+    | some v =>
+      rw [hk] at hi
+      exact (hI.key_sound i v o hi).1
+
+theorem yield_lt {sch : Schema} {s : Sess} (hI : Inv sch s) (op : Op) (x : ObjId)
+    (h : (stepR sch s op).2.yield = some x) : x < (step sch s op).n := by
+  unfold step
+  unfold stepR at h ⊢
+  cases op with
+  | create c pk vals lf =>
+    simp only at h ⊢
+    have hx := (create_yield c pk vals lf x h).1
+    cases hkt : keyTaken sch s (fun a => Slot.val ((vals[a]?).join)) with
+    | true => rw [create_eq_keyTaken hkt] at h; cases h
+    | false =>
+    cases hpt : pkTaken s pk with
+    | true => rw [create_eq_pkTaken hkt hpt] at h; cases h
+    | false =>
+      cases lf with
+      | true => rw [create_eq_late hkt hpt] at h; cases h
+      | false => rw [create_eq_ok hkt hpt]; subst hx; exact Nat.lt_succ_self _
+  | seed c pk =>
+    simp only [seed] at h ⊢
+    cases hm : idmapLoaded sch s c pk with
+    | error e => simp [hm] at h
+    | ok p =>
+      obtain ⟨s1, o⟩ := p
+      simp only [hm, Option.some.injEq] at h ⊢
+      subst h
+      exact (idmapLoaded_inv hI hm).2.1
+  | load row used u =>
+    simp only at h ⊢
+    unfold load at h ⊢
+    cases hm : idmapLoaded sch s row.cls row.pk with
+    | error e => simp [hm] at h
+    | ok p =>
+      obtain ⟨s1, o⟩ := p
+      have ho := (idmapLoaded_inv hI hm).2.1
+      simp only [hm] at h ⊢
+      cases hdel : (s1.obj o).status.isDel with
+      | true =>
+        simp only [hdel, if_true] at h ⊢
+        cases u with
+        | true => simp only [if_true, Option.some.injEq] at h; subst h; exact ho
+        | false => simp at h
+      | false =>
+        simp only [hdel, Bool.false_eq_true, if_false] at h ⊢
+        by_cases hc : (s1.obj o).status = .created
+        · simp [hc] at h
+        · simp only [hc, if_false] at h ⊢
+          have hn := dbSet_n sch s1 o (fun a => (row.vals[a]?).getD Slot.notLoaded) u
+          cases hd : dbSet sch s1 o (fun a => (row.vals[a]?).getD Slot.notLoaded) u with
+          | mk s2 e =>
+            rw [hd] at hn
+            simp only [hd] at h ⊢
+            cases e with
+            | some e => simp at h
+            | none =>
+              simp only [Option.some.injEq] at h ⊢
+              subst h
+              have hn' : s2.n = s1.n := hn
+              show x < s2.n
+              rw [hn']; exact ho
+  | setAttrs o ch =>
+    simp only [setAttrs] at h
+    split at h
+    · cases h
+    · split at h
+      · cases h
+      · split at h <;> cases h
+  | read o a =>
+    simp only [read] at h
+    split at h
+    · cases h
+    · split at h
+      · cases h
+      · split at h <;> cases h
+  | delete o =>
+    simp only [delete] at h
+    split at h
+    · cases h
+    · split at h
+      · cases h
+      · split at h <;> cases h
+  | saveCreated o id =>
+    simp only [saveCreated] at h
+    split at h
+    · cases h
+    · split at h
+      · cases h
+      · split at h
+        · cases h
+        · split at h
+          · cases h
+          · split at h
+            · split at h <;> cases h
+            · cases h
+  | saveUpdated o =>
+    simp only [saveUpdated] at h
+    split at h
+    · cases h
+    · split at h <;> cases h
+  | saveDeleted o =>
+    simp only [saveDeleted] at h
+    split at h
+    · cases h
+    · split at h <;> cases h
+  | find c pk kw =>
+    simp only at h ⊢
+    rw [(find_same (sch := sch) s c pk kw).n]
+    unfold find at h
+    split at h
+    · cases h
+    · rename_i o hc
+      have ho := findCand_lt hI hc
+      simp only at h
+      split at h
+      · cases h
+      · split at h
+        · cases h
+        · split at h
+          · cases h
+          · split at h
+            · cases h
+            · simp only [Option.some.injEq] at h; subst h; exact ho
+  | proxy o =>
+    simp only at h ⊢
+    rw [proxy_state]
+    unfold proxy at h
+    split at h
+    · cases h
+    · split at h
+      · cases h
+      · rename_i k hk
+        split at h
+        · rename_i o' hg
+          simp only [Option.some.injEq] at h; subst h
+          exact (hI.pk_sound k _ hg).1
+        · cases h
 
 end PonyVerif.Model.KeyIndex
